@@ -12,6 +12,7 @@
                                                   " # Ok <state>" or " # Raise <class>"
      asm_spec <item>...   item = F<msg index>/<AIS sentence> | <Gatehouse> | R:<class>
                                                -> per line spec deliveries "raw;payload;bits;valid;seq;chan" joined by "|"
+     asm_wf <item>...                          -> 1 when the schedule passes the (proved sound) well-formedness check
      asm_specw <event>... event = W<Gatehouse> | D | N         -> per line "<Gatehouse or N>" or empty, joined by "|"
      asm_src iter|stream <hex line>...         -> the lines that reach the loop
      asm_split <hex content>                   -> binaryio_source content (file iteration + Stream filter)
@@ -129,7 +130,7 @@ let () = register "asm_run" (function
     ^ " # " ^ (match fin with Ok st -> "Ok " ^ str_state st | Raise e -> "Raise " ^ str_exn e)
   | _ -> "ERROR bad arguments for asm_run")
 
-let item_of (tok : ostring) : item =
+let item_of (tok : ostring) : asm_item =
   match tok.[0] with
   | 'F' ->
     let i = String.index tok '/' in
@@ -141,7 +142,7 @@ let item_of (tok : ostring) : item =
             | Py _ -> failwith "skipped lines carry library exceptions")
   | _ -> failwith "bad schedule item"
 
-let str_delivery (d : delivery) : ostring =
+let str_delivery (d : asm_delivery) : ostring =
   String.concat ";" [hex_or_dash d.d_raw; hex_or_dash d.d_payload; string_of_bits d.d_bits; str_bool d.d_valid;
                      asm_str_optz d.d_seq_id; asm_cps d.d_channel]
 
@@ -157,6 +158,8 @@ let () = register "asm_specw" (fun toks ->
       | _ -> failwith "bad event") in
   String.concat "|" (List.map (fun o -> "=" ^ String.concat "," (List.map (function None -> "N" | Some g -> str_gatehouse g) o))
                        (spec_wrapper (List.map ev toks))))
+
+let () = register "asm_wf" (fun toks -> str_bool (asm_wf_check (List.map item_of toks)))
 
 let str_lines (ls : z list list) : ostring = String.concat " " (List.map hex_or_dash ls)
 
@@ -178,9 +181,9 @@ let () = register "pylist" (function
     let l = List.init (int_of_string len) z_of_int in
     let show x = String.concat "," (List.map string_of_z x) in
     (match op, rest with
-     | "get", [] -> str_m string_of_z (py_getitem l (z_of_string i))
-     | "set", [] -> str_m show (py_setitem l (z_of_string i) (z_of_int (-7)))
-     | "slice", [j] -> "Ok " ^ show (py_slice l (z_of_string i) (z_of_string j))
-     | "repeat", [] -> "Ok " ^ show (py_repeat (z_of_int 5) (z_of_string i))
+     | "get", [] -> str_m string_of_z (pyl_getitem l (z_of_string i))
+     | "set", [] -> str_m show (pyl_setitem l (z_of_string i) (z_of_int (-7)))
+     | "slice", [j] -> "Ok " ^ show (pyl_slice l (z_of_string i) (z_of_string j))
+     | "repeat", [] -> "Ok " ^ show (pyl_repeat (z_of_int 5) (z_of_string i))
      | _ -> "ERROR bad pylist op")
   | _ -> "ERROR bad arguments for pylist")
